@@ -141,6 +141,47 @@ ParseVerdict(e) ==
      ELSE IF ps.err = "range" /\ e.via \in {"UnmarshalText", "Sscan"} /\ e.r = [i \in 1..16 |-> 0] THEN "ok"
      ELSE agrees
 
+Zero16 == [i \in 1..16 |-> 0]
+\* C05: the stream scanner (fmt.Fscan with k Decimal arguments on one input; fmt.Sscanf with one verb)
+\* one scanned value against its specified outcome: "ok" / "ok+" / "reject:..."
+ScanValueVerdict(o, rb) ==
+  LET r == Decode(rb) IN
+  IF o.val.k = "nan" THEN (IF r.k = "nan" THEN "ok" ELSE "reject:scan-value") ELSE Agrees(o.ex, r, mode)
+ScanStreamVerdict(e) ==
+  LET sm == ScanMany(e.s, 1, e.k, mode)
+      outs == sm.outs
+      nOut == Len(outs)
+      open == SelectInSeq(outs, LAMBDA o : o.err = "nan-signed")       \* a signed NaN: accepted or refused, the statement leaves it open
+      nStrict == IF open = 0 THEN nOut ELSE open - 1                    \* outcomes checked strictly
+      last == outs[nOut]
+      failed == last.err \notin {"none", "nan-signed"}
+      nStored == IF failed THEN nOut - 1 ELSE nOut
+      vs == [i \in 1..nStrict |->
+               IF outs[i].err = "none" THEN ScanValueVerdict(outs[i], e.rs[i])
+               ELSE IF outs[i].err = "range" /\ e.rs[i] # e.prev THEN ScanValueVerdict(outs[i], e.rs[i])   \* the infinity may be stored
+               ELSE IF e.rs[i] = e.prev THEN "ok" ELSE "reject:scan-receiver-written-on-error"]
+      firstBad == SelectInSeq(vs, LAMBDA v : v \notin OkSet)
+  IN IF Panicked(e) THEN "reject:panic"
+     ELSE IF firstBad # 0 THEN vs[firstBad]
+     ELSE IF open # 0 THEN (IF e.n >= open - 1 THEN "ok" ELSE "reject:scan-count")
+     ELSE IF e.n # nStored THEN "reject:scan-count"
+     ELSE IF e.err # (IF failed THEN last.err ELSE "none") THEN "reject:scan-err"
+     ELSE IF \E i \in (nOut + 1)..e.k : e.rs[i] # e.prev THEN "reject:scan-later-receiver-written"
+     ELSE IF e.rem # Len(e.s) - (sm.p - 1) THEN "reject:scan-consumed"
+     ELSE IF \E i \in 1..Len(vs) : vs[i] = "ok+" THEN "ok+" ELSE "ok"
+\* fmt.Sscanf(s, "%<verb>", &d): the seven verbs read a value like Fscan does, every other verb is refused
+ScanVerbVerdict(e) ==
+  IF Panicked(e) THEN "reject:panic"
+  ELSE IF e.verb \notin {101, 69, 102, 70, 103, 71, 118} THEN B2S(e.n = 0 /\ e.err # "none" /\ e.r = Zero16)
+  ELSE IF \E i \in 1..Len(e.s) : e.s[i] \in {10, 13} THEN "ok"                \* Sscanf treats newlines its own way: totality only
+  ELSE LET o == ScanOne(e.s, 1, mode) IN
+       IF o.err = "nan-signed" THEN "ok"
+       ELSE IF o.err = "none" THEN (IF e.n # 1 \/ e.err # "none" THEN "reject:scan-err" ELSE ScanValueVerdict(o, e.r))
+       ELSE IF e.n # 0 \/ e.err = "none" THEN "reject:scan-err"
+       ELSE IF o.err \in {"syntax", "range"} /\ e.err # o.err THEN "reject:scan-errclass"
+       ELSE IF e.r = Zero16 THEN "ok"
+       ELSE IF o.err = "range" THEN ScanValueVerdict(o, e.r) ELSE "reject:scan-receiver-written-on-error"
+
 \* C06: default text forms and the way back
 StringVerdict(e) ==
   LET x == Decode(e.x)
@@ -160,7 +201,6 @@ StringVerdict(e) ==
      ELSE "ok"
 
 \* C13: JSON
-Zero16 == [i \in 1..16 |-> 0]
 SameVal(x, b) == LET r == Decode(b) IN IF x.k = "nan" THEN r.k = "nan" ELSE ResEq(x, r)
 JsonMarshalVerdict(e) ==
   LET x == Decode(e.x) IN
@@ -374,7 +414,9 @@ RawVerdict(e) ==
   ELSE IF Has(e, "m") /\ e.m > 5 /\ e.op # "SetMode" THEN "ok"          \* a mode outside the six named ones: totality only
   ELSE CASE e.op = "SetMode" -> "ok"
          [] e.op = "Payload" -> PayloadVerdict(e)
-         [] e.op \in {"Format", "Sprintf", "Scan"} -> FormatVerdict(e)
+         [] e.op \in {"Format", "Sprintf"} -> FormatVerdict(e)
+         [] e.op = "Scan" -> ScanVerbVerdict(e)
+         [] e.op = "ScanStream" -> ScanStreamVerdict(e)
          [] e.op = "Misc" -> MiscValueVerdict(e)
          [] e.op \in {"Add", "Sub", "Mul", "Quo"} -> Bin2Verdict(e)
          [] e.op = "QuoRem" -> QuoRemVerdict(e)
